@@ -232,7 +232,23 @@ func (g *c07Gen) transformProgram() jast.Node {
 		subject = &jast.Var{Name: ""}
 	}
 	var e jast.Node
-	switch r.Intn(6) {
+	switch r.Intn(8) {
+	case 6, 7:
+		// the transform ends a longer chain: the stage before it hands on objects
+		// that exist elsewhere (in the input), they are not the chain's to modify
+		g.tags["apply:after-a-stage-that-hands-on-existing-objects"] = true
+		always := &jast.Lambda{Params: []string{"x"}, Body: &jast.Bool{V: true}}
+		stage := []jast.Node{
+			&jast.Lambda{Params: []string{"x"}, Body: &jast.Var{Name: "x"}}, &jast.Var{Name: "reverse"}, &jast.Var{Name: "distinct"},
+			&jast.Call{Fn: &jast.Var{Name: "filter"}, Args: []jast.Node{always}}, &jast.Call{Fn: &jast.Var{Name: "append"}, Args: []jast.Node{&jast.Array{}}},
+			&jast.Call{Fn: &jast.Var{Name: "lookup"}, Args: []jast.Node{&jast.Str{V: "a"}}}, &jast.Call{Fn: &jast.Var{Name: "map"}, Args: []jast.Node{&jast.Lambda{Params: []string{"x"}, Body: &jast.Var{Name: "x"}}}},
+			&jast.Call{Fn: &jast.Var{Name: "sort"}, Args: []jast.Node{&jast.Lambda{Params: []string{"l", "r"}, Body: &jast.Bool{V: false}}}}, &jast.Lambda{Params: []string{"x"}, Body: &jast.Pred{X: &jast.Array{Items: []jast.Node{&jast.Var{Name: "x"}}}, Filters: []jast.Node{&jast.Num{V: 0}}}},
+			&jast.Call{Fn: &jast.Var{Name: "sift"}, Args: []jast.Node{always}}, &jast.Call{Fn: &jast.Var{Name: "single"}, Args: []jast.Node{always}},
+		}[r.Intn(11)]
+		e = &jast.Apply{L: &jast.Apply{L: subject, R: stage}, R: t}
+		if r.Intn(3) == 0 {
+			e = &jast.Apply{L: &jast.Apply{L: &jast.Apply{L: subject, R: &jast.Lambda{Params: []string{"x"}, Body: &jast.Var{Name: "x"}}}, R: stage}, R: t}
+		}
 	case 0:
 		g.tags["apply:direct-call"] = true
 		e = &jast.Call{Fn: &jast.Block{Exprs: []jast.Node{t}}, Args: []jast.Node{subject}}
